@@ -184,8 +184,8 @@ def ee_spec(cx):
         if key not in seen:
             seen.add(key)
             cx.axioms.append(SUMT(arr, base, 0) == 0)
-            cx.axioms.append(z3.ForAll([k], z3.Implies(0 <= k, SUMT(arr, base, k + 1) == SUMT(arr, base, k) + TEE[arr[k] - base]),
-                                       patterns=[SUMT(arr, base, k + 1)]))
+            cx.axioms.append(z3.ForAll([k], z3.Implies(0 < k, SUMT(arr, base, k) == SUMT(arr, base, k - 1) + TEE[arr[k - 1] - base]),
+                                       patterns=[SUMT(arr, base, k)]))
         return SUMT(arr, base, kk)
 
     def okq(p, base, t):
